@@ -14,6 +14,8 @@ Definition wfl (ts : list pterm) : Prop := Forall wft ts /\ all_have_vars ts = t
 Definition nzt (t : pterm) : Prop := nzl (tvars t).
 Definition nz_terms (ts : list pterm) : Prop := Forall nzt ts.
 
+Lemma nil_or_not {T} (l : list T) : l = [] \/ l <> [].
+Proof. destruct l; [left; reflexivity|right; discriminate]. Qed.
 Lemma wfl_nil : wfl [].
 Proof. split; [constructor|reflexivity]. Qed.
 Lemma wfl_opt_none : wfl (opt_list (@None (list pterm))).
@@ -196,6 +198,32 @@ Proof.
   intros x Hx. apply in_polytope_vars. exists t. tauto.
 Qed.
 
+(* a list of terms that all mention a variable yields a non-empty variable order (m > 0) *)
+Lemma polytope_vars_nonempty_l A B : wfl A -> A <> [] -> polytope_vars A B <> [].
+Proof.
+  intros [_ Hv] Hne E. destruct A as [|t A]; [congruence|].
+  assert (Ht : term_vars_p t <> []) by (eapply all_have_vars_in; [exact Hv|left; reflexivity]).
+  destruct (term_vars_p t) as [|x l] eqn:Ex; [congruence|].
+  assert (Hin : In x (polytope_vars (t :: A) B)).
+  { apply in_polytope_vars. exists t. split; [left; left; reflexivity|rewrite Ex; left; reflexivity]. }
+  rewrite E in Hin. destruct Hin.
+Qed.
+Lemma polytope_vars_nonempty_r A B : wfl B -> B <> [] -> polytope_vars A B <> [].
+Proof.
+  intros [_ Hv] Hne E. destruct B as [|t B]; [congruence|].
+  assert (Ht : term_vars_p t <> []) by (eapply all_have_vars_in; [exact Hv|left; reflexivity]).
+  destruct (term_vars_p t) as [|x l] eqn:Ex; [congruence|].
+  assert (Hin : In x (polytope_vars A (t :: B))).
+  { apply in_polytope_vars. exists t. split; [right; left; reflexivity|rewrite Ex; left; reflexivity]. }
+  rewrite E in Hin. destruct Hin.
+Qed.
+Lemma polytope_vars_nil A B : wfl A -> wfl B -> polytope_vars A B = [] -> A = [] /\ B = [].
+Proof.
+  intros HA HB E. split.
+  - destruct (nil_or_not A) as [H|H]; [exact H|]. exfalso. apply (polytope_vars_nonempty_l A B HA H E).
+  - destruct (nil_or_not B) as [H|H]; [exact H|]. exfalso. apply (polytope_vars_nonempty_r A B HB H E).
+Qed.
+
 (* ------------------------------------------------------------------ *)
 (** * A constraint with a variable and no zero coefficient can be violated *)
 Lemma lin_vanish (rho : val) l : (forall x, In x (keys l) -> rho x = 0) -> lin rho l = 0.
@@ -284,10 +312,19 @@ Definition simp_vars (ts : list pterm) (ctx : option (list pterm)) : list var :=
 
 Lemma poly_simplify_unfold O ts ctx :
   poly_simplify O ts ctx =
-  if negb (all_have_vars (new_self ts ctx) && all_have_vars (opt_list ctx)) then unmodelled else
-  bind (reduce_polytope O (map (term_to_row (simp_vars ts ctx)) (new_self ts ctx))
+  match simp_vars ts ctx with
+  | [] =>
+      match opt_list ctx, new_self ts ctx with
+      | _ :: _, _ => raise (Escape "AssertionError")
+      | [], [] => ret []
+      | [], [t] => ret [row_to_term (simp_vars ts ctx) (term_to_row (simp_vars ts ctx) t)]
+      | [], _ => raise ValueErr
+      end
+  | _ =>
+  bind (reduce_polytope O (simp_vars ts ctx) (map (term_to_row (simp_vars ts ctx)) (new_self ts ctx))
                           (map (term_to_row (simp_vars ts ctx)) (opt_list ctx)))
-       (fun red => ret (map (row_to_term (simp_vars ts ctx)) red)).
+       (fun red => ret (map (row_to_term (simp_vars ts ctx)) red))
+  end.
 Proof. reflexivity. Qed.
 
 Lemma incl_new_self ts ctx : incl (new_self ts ctx) ts.
@@ -297,13 +334,27 @@ Proof. destruct ctx; simpl; [apply subseq_filter|apply subseq_refl]. Qed.
 Lemma wfl_new_self ts ctx : wfl ts -> wfl (new_self ts ctx).
 Proof. apply wfl_incl. apply incl_new_self. Qed.
 
+(* under wfl the m = 0 branch is only reached with nothing to do, where it agrees with the normal path *)
+Lemma poly_simplify_wfl O ts ctx :
+  wfl ts -> wfl (opt_list ctx) ->
+  poly_simplify O ts ctx =
+  bind (reduce_polytope O (simp_vars ts ctx) (map (term_to_row (simp_vars ts ctx)) (new_self ts ctx))
+                          (map (term_to_row (simp_vars ts ctx)) (opt_list ctx)))
+       (fun red => ret (map (row_to_term (simp_vars ts ctx)) red)).
+Proof.
+  intros Hts Hctx. rewrite poly_simplify_unfold.
+  destruct (simp_vars ts ctx) as [|v l] eqn:E; [|reflexivity].
+  destruct (polytope_vars_nil _ _ (wfl_new_self ts ctx Hts) Hctx E) as [E1 E2].
+  rewrite E1, E2. reflexivity.
+Qed.
 Lemma poly_simplify_inl O ts ctx r :
+  wfl ts -> wfl (opt_list ctx) ->
   poly_simplify O ts ctx = inl r ->
-  exists red, reduce_polytope O (map (term_to_row (simp_vars ts ctx)) (new_self ts ctx))
+  exists red, reduce_polytope O (simp_vars ts ctx) (map (term_to_row (simp_vars ts ctx)) (new_self ts ctx))
                                 (map (term_to_row (simp_vars ts ctx)) (opt_list ctx)) = inl red
               /\ r = map (row_to_term (simp_vars ts ctx)) red.
 Proof.
-  rewrite poly_simplify_unfold. destruct (negb _); [discriminate|].
+  intros Hts Hctx. rewrite poly_simplify_wfl by assumption.
   intros H. apply bind_inl in H. destruct H as [red [H1 H2]]. exists red. split; [exact H1|].
   inversion H2. reflexivity.
 Qed.
@@ -318,9 +369,16 @@ Theorem simplify_selection O ts ctx r :
   exists sub, subseq sub (match ctx with Some c => list_diff ts c | None => ts end) /\
               r = map (fun t => row_to_term (simp_vars ts ctx) (term_to_row (simp_vars ts ctx) t)) sub.
 Proof.
-  intros H. apply poly_simplify_inl in H. destruct H as [red [H ->]].
-  apply reduce_polytope_subseq in H. apply subseq_map_inv in H. destruct H as [sub [Hs ->]].
-  exists sub. split; [exact Hs|]. apply map_roundtrip.
+  rewrite poly_simplify_unfold. change (match ctx with Some c => list_diff ts c | None => ts end) with (new_self ts ctx).
+  destruct (simp_vars ts ctx) as [|v l] eqn:E.
+  - (* m = 0 *)
+    destruct (opt_list ctx); [|discriminate].
+    destruct (new_self ts ctx) as [|t [|t' ns]]; intros H; try discriminate; inversion H; subst r.
+    + exists []. split; constructor.
+    + exists [t]. split; [apply subseq_refl|reflexivity].
+  - intros H. apply bind_inl in H. destruct H as [red [H Hr]]. inversion Hr; subst r.
+    apply reduce_polytope_subseq in H. apply subseq_map_inv in H. destruct H as [sub [Hs ->]].
+    exists sub. split; [exact Hs|]. apply map_roundtrip.
 Qed.
 
 Corollary simplify_coefficients O ts ctx r :
@@ -385,12 +443,12 @@ Theorem simplify_equiv r :
   poly_simplify O ts ctx = inl r ->
   forall rho, sat_list rho (opt_list ctx) -> (sat_list rho r <-> sat_list rho ts).
 Proof.
-  intros H rho Hc. apply poly_simplify_inl in H. fold vs ns in H. destruct H as [red [H ->]].
-  pose proof (reduce_polytope_subseq _ _ _ _ H) as Hsub.
+  intros H rho Hc. apply poly_simplify_inl in H; [|exact Hts|exact Hctx]. fold vs ns in H. destruct H as [red [H ->]].
+  pose proof (reduce_polytope_subseq _ _ _ _ _ H) as Hsub.
   apply subseq_map_inv in Hsub. destruct Hsub as [sub [Hs Er]].
   rewrite <- (sat_new_self ts ctx rho) by (try apply Hts; try apply Hctx; exact Hc). fold ns.
   rewrite <- (feas_sat vs ns rho vs_nodup vs_ns).
-  rewrite <- (reduce_polytope_equiv O HO (List.length vs) _ _ red (wf_rows_terms vs ns) H (map rho vs)).
+  rewrite <- (reduce_polytope_equiv O HO (List.length vs) vs _ _ red (wf_rows_terms vs ns) H (map rho vs)).
   - rewrite Er, map_roundtrip. rewrite sat_list_roundtrip.
     + symmetry. apply feas_sat; [apply vs_nodup|].
       eapply covered_incl; [apply subseq_incl; exact Hs|apply vs_ns].
@@ -404,9 +462,9 @@ Theorem simplify_error :
   poly_simplify O ts ctx = inr ValueErr ->
   forall rho, ~ (sat_list rho ts /\ sat_list rho (opt_list ctx)).
 Proof.
-  rewrite poly_simplify_unfold. fold vs ns. destruct (negb _); [discriminate|].
+  rewrite poly_simplify_wfl by assumption. fold vs ns.
   intros H rho [H1 H2]. apply bind_inr in H. destruct H as [H|[red [_ H]]]; [|discriminate].
-  apply (reduce_polytope_error O HO (List.length vs) _ _ (wf_rows_terms vs ns) H (map rho vs)).
+  apply (reduce_polytope_error O HO (List.length vs) vs _ _ (wf_rows_terms vs ns) H (map rho vs)).
   - apply map_length.
   - apply feas_app. split.
     + apply feas_sat; [apply vs_nodup|apply vs_ns|].
@@ -422,8 +480,8 @@ Theorem simplify_irredundant r :
   forall pre t post, r = pre ++ t :: post ->
   exists rho, sat_list rho (opt_list ctx) /\ sat_list rho (pre ++ post) /\ ~ sat rho t.
 Proof.
-  intros H pre t post E. apply poly_simplify_inl in H. fold vs ns in H. destruct H as [red [H Er]].
-  pose proof (reduce_polytope_subseq _ _ _ _ H) as Hsub.
+  intros H pre t post E. apply poly_simplify_inl in H; [|exact Hts|exact Hctx]. fold vs ns in H. destruct H as [red [H Er]].
+  pose proof (reduce_polytope_subseq _ _ _ _ _ H) as Hsub.
   apply subseq_map_inv in Hsub. destruct Hsub as [sub [Hs Ered]].
   rewrite Ered, map_roundtrip, E in Er. symmetry in Er.
   apply map_eq_app in Er. destruct Er as [s1 [s2' [Esub [E1 E2]]]].
@@ -433,7 +491,7 @@ Proof.
   inversion Hc2 as [|x0 l0 [Hw0 Hv0] Hc2' [Ex El]]. clear Ex El.
   assert (W : witness (List.length vs) (map (term_to_row vs) (opt_list ctx)) (term_to_row vs t0)
                       (map (term_to_row vs) s1 ++ map (term_to_row vs) s2)).
-  { apply (reduce_polytope_irredundant O HO (List.length vs) _ _ red HT (wf_rows_terms vs ns) H).
+  { apply (reduce_polytope_irredundant O HO (List.length vs) vs _ _ red HT (wf_rows_terms vs ns) H).
     - (* the shortcut: a single constraint, empty context *)
       intros r0 Er0 Ec. destruct ns as [|t1 [|t2 ns']] eqn:Ens; simpl in Er0; try discriminate.
       inversion Er0; subst r0.
@@ -459,12 +517,21 @@ End Simplify.
 
 Theorem simplify_errors_only O ts ctx e :
   poly_simplify O ts ctx = inr e ->
-  e = ValueErr \/ e = OracleMiss \/ e = Escape "unmodelled: constraint without variables".
+  e = ValueErr \/ e = OracleMiss \/ e = Escape "AssertionError".
 Proof.
-  rewrite poly_simplify_unfold. destruct (negb _).
-  - unfold unmodelled, raise. intros H. inversion H. tauto.
+  rewrite poly_simplify_unfold. destruct (simp_vars ts ctx) as [|v l].
+  - destruct (opt_list ctx); [|intros H; inversion H; tauto].
+    destruct (new_self ts ctx) as [|t [|t' ns]]; intros H; inversion H; tauto.
   - intros H. apply bind_inr in H. destruct H as [H|[red [_ H]]]; [|discriminate].
     apply reduce_polytope_errors_only in H. tauto.
+Qed.
+(* under wfl the assertion of the m = 0 branch cannot fail *)
+Corollary simplify_errors_only_wfl O ts ctx e :
+  wfl ts -> wfl (opt_list ctx) -> poly_simplify O ts ctx = inr e -> e = ValueErr \/ e = OracleMiss.
+Proof.
+  intros Hts Hctx. rewrite poly_simplify_wfl by assumption.
+  intros H. apply bind_inr in H. destruct H as [H|[red [_ H]]]; [|discriminate].
+  apply reduce_polytope_errors_only in H. exact H.
 Qed.
 
 (* ------------------------------------------------------------------ *)
@@ -472,15 +539,14 @@ Qed.
 Lemma poly_refines_unfold O A B :
   wfl A -> wfl B -> A <> [] -> B <> [] ->
   poly_refines O A B =
-  verify_polytope_containment O (List.length (polytope_vars A B))
+  verify_polytope_containment O (polytope_vars A B)
     (map (term_to_row (polytope_vars A B)) A) (map (term_to_row (polytope_vars A B)) B).
 Proof.
-  intros [_ HA] [_ HB] NA NB. destruct A as [|a A]; [congruence|]. destruct B as [|b B]; [congruence|].
-  unfold poly_refines. rewrite HA, HB. reflexivity.
+  intros HA HB NA NB. pose proof (polytope_vars_nonempty_l A B HA NA) as Hvs.
+  destruct A as [|a A]; [congruence|]. destruct B as [|b B]; [congruence|].
+  unfold poly_refines. destruct (polytope_vars (a :: A) (b :: B)) as [|v l]; [congruence|reflexivity].
 Qed.
 
-Lemma nil_or_not {T} (l : list T) : l = [] \/ l <> [].
-Proof. destruct l; [left; reflexivity|right; discriminate]. Qed.
 Lemma poly_refines_nil_r O A : poly_refines O A [] = inl true.
 Proof. destruct A; reflexivity. Qed.
 Lemma poly_refines_nil_l O B : B <> [] -> poly_refines O [] B = inl false.
@@ -500,6 +566,8 @@ Local Lemma rvs_A : covered vs A.
 Proof. apply covered_polytope_l. apply HA. Qed.
 Local Lemma rvs_B : covered vs B.
 Proof. apply covered_polytope_r. apply HB. Qed.
+Local Lemma rvs_ne : A <> [] -> vs <> [].
+Proof. apply polytope_vars_nonempty_l. exact HA. Qed.
 
 Theorem refines_sound :
   small_consts B ->
@@ -510,7 +578,7 @@ Proof.
   destruct (nil_or_not A) as [EA|NA]; [rewrite EA, poly_refines_nil_l in H by exact NB; discriminate|].
   rewrite poly_refines_unfold in H by assumption. fold vs in H.
   apply (feas_tol_sat vs B rho rvs_nodup rvs_B).
-  apply (vpc_true O HO (List.length vs) _ _ (wf_rows_terms vs B) (small_rows_terms vs B Hsm) H (map rho vs)).
+  apply (vpc_true O HO vs (rvs_ne NA) _ _ (wf_rows_terms vs B) (small_rows_terms vs B Hsm) H (map rho vs)).
   - apply map_length.
   - apply (feas_sat vs A rho rvs_nodup rvs_A). exact Hs.
 Qed.
@@ -531,7 +599,7 @@ Proof.
     split; [rewrite EA; constructor|]. split; [|intros _ _; exact Hr].
     intros Hs. apply Hr. apply sat_list_tol. exact Hs.
   - rewrite poly_refines_unfold in H by assumption. fold vs in H.
-    apply (vpc_false O HO (List.length vs) _ _ (wf_rows_terms vs B)) in H.
+    apply (vpc_false O HO vs (rvs_ne NA) _ _ (wf_rows_terms vs B)) in H.
     destruct H as [x [Lx [Fa [Fb Ft]]]].
     destruct (point_is_valuation vs x rvs_nodup Lx) as [rho ->]. exists rho. split; [|split].
     + apply (feas_sat vs A rho rvs_nodup rvs_A). exact Fa.
@@ -590,7 +658,7 @@ Proof.
   destruct (nil_or_not B) as [EB|NB]; [exfalso; apply (Hinf rho); rewrite EB; constructor|].
   destruct (nil_or_not A) as [EA|NA]; [rewrite EA; apply poly_refines_nil_l; exact NB|].
   rewrite poly_refines_unfold by assumption. fold vs.
-  apply (vpc_infeasible_right O HO (List.length vs) _ _ HT).
+  apply (vpc_infeasible_right O HO vs (rvs_ne NA) _ _ HT).
   - exists (map rho vs). split; [apply map_length|]. apply (feas_sat vs A rho rvs_nodup rvs_A). exact Hs.
   - intros y Ly Fy. destruct (point_is_valuation vs y rvs_nodup Ly) as [rho' ->].
     apply (Hinf rho'). apply (feas_sat vs B rho' rvs_nodup rvs_B). exact Fy.
@@ -610,28 +678,30 @@ Proof. intros HO HT HA. apply refines_sublist; try assumption. apply incl_refl. 
 (* ------------------------------------------------------------------ *)
 (** * C11: is_empty *)
 Lemma poly_is_empty_unfold O ts :
-  wfl ts ->
   poly_is_empty O ts =
-  is_polytope_empty O (List.length (polytope_vars ts [])) (map (term_to_row (polytope_vars ts [])) ts).
-Proof. intros [_ H]. unfold poly_is_empty. rewrite H. reflexivity. Qed.
+  is_polytope_empty O (polytope_vars ts []) (map (term_to_row (polytope_vars ts [])) ts).
+Proof. reflexivity. Qed.
 
 Theorem is_empty_iff O ts :
   lp_spec 0 O -> lp_total O -> wfl ts ->
   (poly_is_empty O ts = inl true <-> forall rho, ~ sat_list rho ts) /\
   (exists b, poly_is_empty O ts = inl b).
 Proof.
-  intros HO HT Hts. rewrite poly_is_empty_unfold by exact Hts.
+  intros HO HT Hts. rewrite poly_is_empty_unfold.
   set (vs := polytope_vars ts []).
   assert (Hn : NoDup vs) by (apply NoDup_polytope_vars; [apply Hts|constructor]).
   assert (Hc : covered vs ts) by (apply covered_polytope_l; apply Hts).
+  assert (Hne : map (term_to_row vs) ts = [] \/ vs <> []).
+  { destruct (nil_or_not ts) as [E|E]; [left; rewrite E; reflexivity|right].
+    apply polytope_vars_nonempty_l; assumption. }
   split; [|apply is_polytope_empty_total; exact HT].
   split.
   - intros H rho Hs. apply (is_polytope_empty_true O HO _ _ H (map rho vs)).
     + apply map_length.
     + apply feas_sat; assumption.
-  - intros Hinf. destruct (is_polytope_empty_total O (List.length vs) (map (term_to_row vs) ts) HT) as [[|] Hb];
+  - intros Hinf. destruct (is_polytope_empty_total O vs (map (term_to_row vs) ts) HT) as [[|] Hb];
       [exact Hb|].
-    exfalso. apply (is_polytope_empty_false O HO) in Hb. destruct Hb as [x [Lx Fx]].
+    exfalso. apply (is_polytope_empty_false O HO vs _ Hne) in Hb. destruct Hb as [x [Lx Fx]].
     destruct (point_is_valuation vs x Hn Lx) as [rho ->]. apply (Hinf rho).
     apply (feas_sat vs ts rho Hn Hc). exact Fx.
 Qed.
@@ -642,7 +712,8 @@ Definition opt_obj (objective : pvars) : pterm := mk_term objective 0.
 Definition opt_vars (ts : list pterm) (objective : pvars) : list var := polytope_vars ts [opt_obj objective].
 Definition opt_polarity (mx : bool) : Q := if mx then (-(1))%Q else 1%Q.
 Definition opt_lp (ts : list pterm) (objective : pvars) (mx : bool) : lp_problem :=
-  mkLP (map (fun q => qmul (opt_polarity mx) q) (fst (term_to_row (opt_vars ts objective) (opt_obj objective))))
+  mkLP (opt_vars ts objective)
+       (map (fun q => qmul (opt_polarity mx) q) (fst (term_to_row (opt_vars ts objective) (opt_obj objective))))
        (map (term_to_row (opt_vars ts objective)) ts).
 
 Lemma poly_optimize_unfold O ts objective mx :
@@ -655,8 +726,10 @@ Lemma poly_optimize_unfold O ts objective mx :
   | LpMiss => raise OracleMiss
   end.
 Proof.
-  intros [_ H] Hne. destruct ts as [|t ts]; [congruence|].
-  unfold poly_optimize. rewrite H. reflexivity.
+  intros Hts Hne. pose proof (polytope_vars_nonempty_l ts [opt_obj objective] Hts Hne) as Hvs.
+  destruct ts as [|t ts]; [congruence|].
+  unfold poly_optimize, opt_lp, opt_vars, opt_obj in *.
+  destruct (polytope_vars (t :: ts) [mk_term objective 0]) as [|v l]; [congruence|reflexivity].
 Qed.
 Lemma poly_optimize_nil O objective mx r : poly_optimize O [] objective mx <> inl r.
 Proof. discriminate. Qed.
@@ -751,13 +824,16 @@ Proof.
   - apply opt_unbounded. exact Hu.
 Qed.
 
+(* for ts = [] the code raises ValueError too (linprog rejects the empty A_ub) although [] is
+   satisfiable and, e.g., the zero objective is bounded: hence ts <> [] *)
 Theorem optimize_error :
+  ts <> [] ->
   poly_optimize O ts objective mx = inr ValueErr -> lp_total O ->
   (forall rho, ~ sat_list rho ts) \/
   (forall bound, exists rho, sat_list rho ts /\
      (if mx then bound < lin rho objective else lin rho objective < bound)).
 Proof.
-  intros H HT. destruct (nil_or_not ts) as [Ets|Nts]; [rewrite Ets in H; discriminate|].
+  intros Nts H HT.
   rewrite poly_optimize_unfold in H by assumption. fold P in H.
   pose proof (HO P) as Hs. pose proof (HT P) as Ht.
   destruct (O P) as [f s| | |st|]; try discriminate; try contradiction.
@@ -770,11 +846,10 @@ Qed.
 End Optimize.
 
 Theorem optimize_errors_only O ts objective mx e :
-  poly_optimize O ts objective mx = inr e ->
-  e = ValueErr \/ e = OracleMiss \/ e = Escape "unmodelled: constraint without variables".
+  poly_optimize O ts objective mx = inr e -> e = ValueErr \/ e = OracleMiss.
 Proof.
   unfold poly_optimize. destruct ts as [|t0 ts']; [intros H; inversion H; tauto|].
-  destruct (negb _); [intros H; inversion H; tauto|].
+  destruct (polytope_vars _ _); [intros H; inversion H; tauto|].
   destruct (O _); intros H; inversion H; tauto.
 Qed.
 
@@ -799,8 +874,8 @@ Definition ex_ts : list pterm :=
   [ mkT [("x", 1%Q); ("y", 1%Q)] 1%Q ; mkT [("x", 1%Q); ("y", 1%Q)] 2%Q ].
 Definition ex_ctx : list pterm := [ mkT [("x", 1%Q)] 5%Q ].
 Definition ex_tbl : list (lp_problem * lp_answer) :=
-  [ (mkLP [(-1)%Q; (-1)%Q] [([1%Q; 1%Q], 2%Q); ([1%Q; 1%Q], 2%Q); ([1%Q; 0%Q], 5%Q)], LpOpt (-2)%Q []) ;
-    (mkLP [(-1)%Q; (-1)%Q] [([1%Q; 1%Q], 1%Q); ([1%Q; 1%Q], 3%Q); ([1%Q; 0%Q], 5%Q)], LpOpt (-1)%Q []) ].
+  [ (mkLP ["x"; "y"] [(-1)%Q; (-1)%Q] [([1%Q; 1%Q], 2%Q); ([1%Q; 1%Q], 2%Q); ([1%Q; 0%Q], 5%Q)], LpOpt (-2)%Q []) ;
+    (mkLP ["x"; "y"] [(-1)%Q; (-1)%Q] [([1%Q; 1%Q], 1%Q); ([1%Q; 1%Q], 3%Q); ([1%Q; 0%Q], 5%Q)], LpOpt (-1)%Q []) ].
 Example simplify_runs :
   poly_simplify (table_oracle 0 ex_tbl) ex_ts (Some ex_ctx) = inl [ mkT [("x", 1%Q); ("y", 1%Q)] 1%Q ].
 Proof. vm_compute. reflexivity. Qed.
